@@ -41,7 +41,10 @@ orc_init (void)
 {
   static int inited = FALSE;
 
-  if (!inited) {
+  /* the flag is only looked at under the lock: testing it outside first
+   * (double-checked locking on a plain int) is a data race with the
+   * initialising thread */
+  {
     orc_global_mutex_lock ();
     if (!inited) {
       ORC_ASSERT(sizeof(OrcExecutor) == sizeof(OrcExecutorAlt));
